@@ -214,7 +214,9 @@ class SingleDeletionSweep(Contract):
         from geoh5py.workspace import Workspace
 
         with Workspace.create(path) as ws:
-            g1 = ContainerGroup.create(ws, name="site")
+            # identifiers chosen so that, in identifier order, the nested group comes first, the (random) root
+            # in between and the outer group last: the order in which a rebuild meets them is then fixed
+            g1 = ContainerGroup.create(ws, name="site", uid=__import__("uuid").UUID("ffffffff-ffff-ffff-ffff-fffffffffff0"))
             # the nested group's identifier sorts before its parent's and before the root's: a rebuild that
             # walks the flat container in identifier order meets the child first
             g2 = ContainerGroup.create(ws, name="sub_site", parent=g1, uid=__import__("uuid").UUID(int=1))
@@ -391,7 +393,7 @@ class RebuildRoot(Contract):
     target = "geoh5py/workspace/workspace.py::Workspace.fetch_or_create_root"
     props = ("C19",)
     lenient = True
-    bounded_scope = "flat containers with 0-4 stored identifiers per kind; each loaded entity brings along any subset of the identifiers listed after/before it as already-loaded descendants (exhaustive for the sampled descent patterns)"
+    bounded_scope = "flat containers with 0-4 stored identifiers per kind; each loaded entity brings along any subset of the identifiers listed after/before it as already-loaded descendants (sampled descent patterns incl. chains of 3-4 levels met outer-first and inner-first)"
 
     def cases(self):
         out = []
@@ -404,8 +406,13 @@ class RebuildRoot(Contract):
             if n >= 3:
                 pats.append(tuple(((0, 1) if i == 2 else ()) for i in range(n)))
                 pats.append(tuple(((1, 2) if i == 0 else ()) for i in range(n)))
+                # chains of three levels (outer lists middle, middle lists inner) in every identifier order
+                for outer, middle, inner in itertools.permutations(range(3)):
+                    pats.append(tuple(((middle,) if i == outer else ((inner,) if i == middle else ())) for i in range(n)))
             if n >= 4:
                 pats.append(tuple(((0, 1) if i == 2 else ()) for i in range(n)))
+                pats.append(tuple(((i + 1,) if i < n - 1 else ()) for i in range(n)))
+                pats.append(tuple(((i - 1,) if i > 0 else ()) for i in range(n)))
             for p in pats:
                 out.append((n, p))
         return out
@@ -434,11 +441,18 @@ class RebuildRoot(Contract):
             ent = a[0]
             i = ent.attrs["uid"].int - 1
             kids = []
-            for j in (pattern[i] if i < len(pattern) else ()):
-                loaded.add(uids[j])
-                k = Opaque(f"descendant-{j}", cls=ContainerGroup)
-                k.attrs["uid"] = uids[j]
-                kids.append(k)
+
+            def bring(ii):  # the whole stored subtree comes along (recursively=True)
+                for j in (pattern[ii] if ii < len(pattern) else ()):
+                    if uids[j] in loaded:
+                        continue
+                    loaded.add(uids[j])
+                    k = Opaque(f"descendant-{j}", cls=ContainerGroup)
+                    k.attrs["uid"] = uids[j]
+                    kids.append(k)
+                    bring(j)
+
+            bring(i)
             return PList(kids)
 
         def get_entity(I, a, kw):
